@@ -81,7 +81,7 @@ class C18(Prop):
         "shuffle_inplace_eq_separate", "xShuffle_inplace_eq_separate", "shuffleKmers_inplace_eq_separate", "shuffleWindows_inplace_eq_separate",
         "xShuffleWindows_inplace_eq_separate", "msaShuffle_inplace_eq_separate", "qrna_inplace_eq_separate", "roll_returns_from_poked_state",
         "dchoose_returns", "iid_never_fatal", "markov1_counts_exact", "cMarkov0_einval_or_ok", "xMarkov0_einval_or_ok", "cMarkov1_einval_or_ok", "xMarkov1_einval_or_ok",
-        "dchoose_inverse_cdf", "markov0_frequencies_exact", "markov1_conditional_exact")]
+        "dchoose_inverse_cdf", "markov0_frequencies_exact", "markov1_conditional_exact", "iid_never_fatal_any_number_type", "qrna_status")]
     claimed = True
     technique = ("Lean 4 proof (Fisher-Yates/swap-loop invariants, permutation and support theorems for every generator state) + "
                  "exact differential correspondence of the executable model (on the C09 generator model) with the ASan/UBSan-built C code + python property monitors on the C output")
@@ -120,6 +120,7 @@ class C18(Prop):
                     "C09 generator model (EaselModel.Random.Model) - bit-identical to esl_random.c, proved and tied by C09",
                     "Lean compiler/runtime for the executable driver; gcc; binary64 arithmetic of DChoose (L0)"]
     assumptions = ["esl_rnd_Roll's rejection loop is modelled with fuel 10^6 (first accepted draw); the DP shuffle's `while (!is_eulerian)` retry loop with fuel 10^5 (roll_rejects_less_than_half / exists_accepting_rolls bound what fuel exhaustion means)",
+                   "the expected number of passes of the DP shuffle's retry loop is the product over vertices of (edges of the vertex / edges that lead towards s_f in an accepted tree): for an input made of long sorted runs it is astronomically large (measured, ASan build: 4 runs of 200 residues 7 s, scaling with the cube of the run length - 4 runs of 1250 residues, L = 5000, would take tens of minutes) - termination is outside the property; the generator keeps sorted-run inputs short (L <= 24) so that fuel 10^5 and the 8 s alarm are never reached on the clean tree",
                    "the roll range `j-i+d` of esl_rsq_{C,X}ShuffleWindows is read from the working tree on every run (WinParams.lean); d = 0 (text version of the pinned tree) is a proved non-uniform shuffle - an observation OUTSIDE the property (C18 promises the residue counts per window, which hold for d in {0,1}); it is not a violation and not a known finding",
                    "the C three-statement swap is Array.swapIfInBounds; all indices are proved in range (RegionPerm/WinPerm/RowsInv hypotheses), ASan checks the C side",
                    "allocation never fails, except ESL_ALLOC of size 0 (esl_msashuffle_{C,X}QRNA on zero-length sequences returns eslEMEM - modelled, outside 'alignments as in C03')",
@@ -169,6 +170,15 @@ class C18(Prop):
         r = rng.random()
         if L == 0: return []
         if r < 0.12: return [rng.randrange(K)] * L                     # a single repeated residue
+        if r < 0.17 and K >= 2:                                        # dyadic composition (counts k*L/8): cumulative frequencies are exact binary fractions
+            L8 = max(1, L // 8); parts = sorted(rng.sample(range(1, 8), rng.randrange(1, min(K, 4))))
+            cuts = [0] + parts + [8]; lets = rng.sample(range(K), len(cuts) - 1)
+            s = sum(([lets[i]] * ((cuts[i + 1] - cuts[i]) * L8) for i in range(len(lets))), [])
+            s = (s + [s[-1]] * L)[:L] if L else []
+            # long sorted runs make the DP shuffle's retry loop astronomically slow (each vertex must draw its single exit edge last:
+            # expected passes ~ product of run lengths) - blocks stay sorted only for short inputs
+            if L > 24 or rng.random() < 0.5: rng.shuffle(s)
+            return s
         if r < 0.24:                                                   # unique Eulerian path: a simple path, maybe with a final self-loop run
             perm = list(range(K)); rng.shuffle(perm)
             s = perm[:L]
@@ -347,6 +357,8 @@ class C18(Prop):
         elif w.endswith("shuffle") and "v" in a: n = 0 if a["v"] == "-" else len(a["v"].split(","))
         elif w in ("xiid", "xfiid") and a.get("p") == "none": n = int(a["K"])
         vals = [0, 1, 0xffffffff, 0xfffffffe, 0x80000000, 0x7fffffff]
+        if w in self.FPLAWS_OPS or w == "sampledirty":      # esl_random() exactly on a dyadic cumulative boundary k/16 of DChoose (the `<` of the scan, rounding of sum/norm)
+            vals += [k << 28 for k in range(1, 16)] * 2
         if n and n >= 2:
             f = 0xffffffff // n
             vals += [n * f, n * f - 1, n * f + 1, (n - 1) * f, (n - 1) * f - 1, f, f - 1]
